@@ -7,7 +7,7 @@ use neurons::tensor::{Data, Shape, Tensor};
 
 pub fn meta(_ctx: &Ctx) -> Meta {
     Meta {
-        rule: "ops {add,sub,mul,hadamard*scalar,div-by-scalar,mean over k=1..4} x ranks 1-D..4-D (nested lists for add/div) x all shapes with extents in {1,2,3} x operand valuations covering ALL 169 ordered pairs over V={0,-0,1,-1,0.1,3,-7.5,2^-149,1e-30,1e30,MAX,5,1e-5} (cycled through the elements with every offset) x scalars {1,0.5,2,-4,3,7,0.1,1e-39,3e38}; every ordered pair of different shapes of the lattice must be refused by add/sub/mul/hadamard/mean; product/dot/transpose on integer data (r,c <= 4, and 1x33, 33x1, 4x40, 64x10, 10x65, 100x100, 3x257); the element-wise operations also on a vector of 1000, 40x40, 3x65, 2x33x5, 3x3x17x2; the free functions hadamard3d and pad3d on all CxHxW with extents <= 3; clamp over V x intervals incl. degenerate. Oracle: the single IEEE f32 operation per element, bit-exact. Non-trivial = case with >=2 elements or a shape-mismatch pair".into(),
+        rule: "ops {add,sub,mul,hadamard*scalar,div-by-scalar,mean over k=1..4} x ranks 1-D..4-D (nested lists for add/div) x all shapes with extents in {1,2,3} x operand valuations covering ALL 169 ordered pairs over V={0,-0,1,-1,0.1,3,-7.5,2^-149,1e-30,1e30,MAX,5,1e-5} (cycled through the elements with every offset), plus operands that are entirely within 1e-5 of 1 or of 0 without being all ones / zeros, x scalars {1,0.5,2,-4,3,7,0.1,1e-39,3e38}; every ordered pair of different shapes of the lattice must be refused by add/sub/mul/hadamard/mean; product/dot/transpose on integer data (r,c <= 4, and 1x33, 33x1, 4x40, 64x10, 10x65, 100x100, 3x257); the element-wise operations also on a vector of 1000, 40x40, 3x65, 2x33x5, 3x3x17x2; the free functions hadamard3d and pad3d on all CxHxW with extents <= 3; clamp over V x intervals incl. degenerate. Oracle: the single IEEE f32 operation per element, bit-exact. Non-trivial = case with >=2 elements or a shape-mismatch pair".into(),
         bound: "extents <= 3 per axis, k <= 4; complete within the bound".into(),
         exhaustive: true,
         assumptions: vec!["hadamard: any association of a*b*scalar is accepted".into(), "mean: bit-exact on integer operands (exact sum, one rounding of the quotient); on general operands within the any-order summation bound eps*(k+2)*sum|x|/(k+1) of the f64 value".into()],
@@ -107,6 +107,8 @@ fn same(a: f32, b: f32) -> bool {
     a.to_bits() == b.to_bits() || (a.is_nan() && b.is_nan())
 }
 
+const NEAR1: [f32; 6] = [1.000_004, 0.999_996, 1.0, 0.999_999_94, 1.000_000_1, 1.000_009];
+const NEAR0: [f32; 6] = [4.0e-6, -4.0e-6, 0.0, 1.0e-7, -0.0, 9.0e-6];
 const SCALARS: [f32; 9] = [1.0, 0.5, 2.0, -4.0, 3.0, 7.0, 0.1, 1.0e-39, 3.0e38];
 
 pub fn check(case: &Kv, rep: &mut Report) {
@@ -119,8 +121,18 @@ pub fn check(case: &Kv, rep: &mut Report) {
             let n = count(&s);
             let off = case.usize("off");
             let scalar = case.opt("scalar").map(|x| x.parse::<f32>().unwrap()).unwrap_or(1.0);
-            let a: Vec<f32> = (0..n).map(|e| V[((off + e) % 169) / 13]).collect();
-            let b: Vec<f32> = (0..n).map(|e| V[((off + e) % 169) % 13]).collect();
+            let mut a: Vec<f32> = (0..n).map(|e| V[((off + e) % 169) / 13]).collect();
+            let mut b: Vec<f32> = (0..n).map(|e| V[((off + e) % 169) % 13]).collect();
+            // a whole operand within 1e-5 of a constant (all ones / all zeros) without being that constant
+            if let Some(near) = case.opt("near") {
+                let set = if near.starts_with("one") { NEAR1 } else { NEAR0 };
+                let v: Vec<f32> = (0..n).map(|e| set[(off + e) % 6]).collect();
+                if near.ends_with("-b") {
+                    b = v;
+                } else {
+                    a = v;
+                }
+            }
             if n >= 2 {
                 rep.nontrivial += 1;
             }
@@ -492,6 +504,17 @@ pub fn cases() -> Vec<Kv> {
         }
         for off in &offsets {
             out.push(Kv::new().put("op", "add").put("shape", sname(s)).put("off", off).put("nested", 1));
+        }
+        // operands that are "almost" the all-ones / all-zeros tensor
+        for near in ["one", "zero", "one-b", "zero-b"] {
+            for off in [0usize, 1, 7] {
+                for op in ["add", "sub", "mul"] {
+                    out.push(Kv::new().put("op", op).put("shape", sname(s)).put("off", off).put("near", near));
+                }
+                for sc in [1.0f32, 0.5, 3.0] {
+                    out.push(Kv::new().put("op", "hadamard").put("shape", sname(s)).put("off", off).put("scalar", sc).put("near", near));
+                }
+            }
         }
         for k in 1..=4 {
             for off in 0..5 {
